@@ -49,9 +49,10 @@ pub const CALS: [&str; 17] = [
 ];
 
 pub const MONTH_CODES: [&str; 14] = ["M01", "M02", "M05", "M06", "M12", "M13", "M05L", "M06L", "M00", "M1", "X01", "M001", "m03", "M0AL"];
-pub const ERAS: [&str; 22] = [
-    "ce", "bce", "ad", "bc", "gregory", "gregory-inverse", "reiwa", "heisei", "showa", "meiji", "taisho", "minguo", "before-roc", "be", "buddhist", "am", "incar", "mundi",
-    "saka", "ah", "persian", "this-era-name-is-far-too-long",
+/// every era name and alias the crate knows (src/builtins/core/calendar/era.rs; lengths up to 19 bytes), plus names
+/// that are too long, exactly 16 / 17 bytes long, or in upper case
+pub const ERAS: [&str; 47] = [
+    "ad", "ah", "am", "ap", "bc", "bce", "be", "before-roc", "buddhist", "ce", "chinese", "coptic", "coptic-inverse", "dangi", "default", "ethioaa", "ethiopic", "ethiopic-amete-alem", "gregory", "gregory-inverse", "hebrew", "heisei", "incar", "indian", "islamic", "islamic-civil", "islamic-rgsa", "islamic-tbla", "islamic-umalqura", "islamicc", "japanese", "japanese-inverse", "meiji", "minguo", "mundi", "persian", "reiwa", "roc", "roc-inverse", "saka", "showa", "taisho", "this-era-name-is-far-too-long", "sixteen-bytes-16", "seventeen-bytes17", "AH", "Reiwa",
 ];
 
 #[derive(Serialize, Deserialize, Debug, Clone)]
@@ -358,7 +359,7 @@ pub fn bundle(names: Vec<&'static str>, parser_strings: bool) -> BoxedStrategy<B
     );
     let part4 = (
         prop_oneof![5 => Just(14usize), 10 => 0usize..MONTH_CODES.len()],
-        prop_oneof![5 => Just(22usize), 10 => 0usize..ERAS.len()],
+        prop_oneof![5 => Just(ERAS.len()), 10 => 0usize..ERAS.len()],
         prop_oneof![6 => 1i32..=3000, 1 => -3000i32..=0, 1 => any::<i32>()],
         instant_strategy(),
         instant_strategy(),
@@ -408,9 +409,13 @@ pub fn bundle(names: Vec<&'static str>, parser_strings: bool) -> BoxedStrategy<B
                     let strict = midnight_inside_gap_points();
                     let use_strict = (h >> 3) % 8 == 0 && !strict.is_empty();
                     let (name, t) = if use_strict { &strict[(h >> 6) % strict.len()] } else { &pts[h % pts.len()] };
-                    let delta = match if use_strict { 3 } else { (h >> 20) % 6 } {
+                    let delta = match if use_strict { 3 } else { (h >> 20) % 8 } {
                         0 => 0i64,
                         1 => -1,
+                        // within two hours after / before the transition (inside the repeated or next to the
+                        // skipped stretch)
+                        6 => ((h >> 8) % 7200) as i64,
+                        7 => -(((h >> 8) % 7200) as i64),
                         2 => -86_400 + ((h >> 8) % 7200) as i64,
                         3 => ((h >> 8) % 86_400) as i64,
                         4 => -(((h >> 8) % 86_400) as i64),
